@@ -3,11 +3,11 @@
    Same rules as Extract.v: ExtrOcamlBasic only, no Extract Constant.  The module is again called
    "model" so that ml/util.ml and ml/memrun.ml (reply printing, dump format) are reused as is. *)
 Require Import Base.Bytes Base.GoInt Base.Reply Glob.GlobSpec Glob.GlobModel.
-Require Import Mem.Types Mem.Exec Mem.Server Mem.ListsBg.
+Require Import Mem.Types Mem.Exec Mem.Server Mem.ListsBg Mem.ListsMulti.
 Require Import Conc.LockModel.
 Require Extraction.
 Require Import ExtrOcamlBasic.
 Extraction Language OCaml.
 Extraction "model.ml" byte_of_N byte_to_N gmatch keys_filter
-  z_to_dec parse_int_unbounded atoi64 purge srv_init srv_exec srv_exec_bg
+  z_to_dec parse_int_unbounded atoi64 purge srv_init srv_exec srv_exec_bg srv_exec_multi
   hash_key stripe poses modelled.
